@@ -75,6 +75,22 @@ def pair_part(rep, wd, binpath, rnd, label, reps=1):
                             abs1.append(a)
                             abs2.append({"multi": True, "envs": [], "cli": [{"id": t, "ok": True} for t in t2]})
                             toks2.append(t2)
+    # two ARGUMENTS of the same type that take turns: `(A B)...` - A holds the 1st, 3rd, 5th token, B the others
+    for typ in ("strings", "ints", "floats"):
+        tk = V.Tok(typ)
+        for rounds in (1, 2, 3, 4):
+            for _ in range(max(reps, 4)):      # (the order in which a merged context is walked varies from run to run)
+                toks = []
+                while len(toks) < 2 * rounds:
+                    t = tk.valid()
+                    if t and not t.startswith("-") and t.strip() == t:
+                        toks.append(t)
+                c, a = V.concrete(typ, "arg", False, V.DEFAULTS[typ][0], (), (), rnd)
+                c.update(pair="args", spec="(A B)...", argv=list(toks), cli=list(toks), cli_first=toks[0::2])
+                cases.append(c)
+                abs1.append({"multi": True, "envs": [], "cli": [{"id": t, "ok": True} for t in toks[0::2]]})
+                abs2.append({"multi": True, "envs": [], "cli": [{"id": t, "ok": True} for t in toks[1::2]]})
+                toks2.append(toks[1::2])
     sub = os.path.join(wd, label)
     os.makedirs(sub, exist_ok=True)
     res1, clean1, _ = V.predict(sub, abs1)
@@ -91,7 +107,7 @@ def pair_part(rep, wd, binpath, rnd, label, reps=1):
             continue
         w1, w2 = V.expected_value(c, p1, r), V.expected_value(c, p2, r)
         if not r["ran"] or r["value"] != w1 or r.get("value2", []) != w2:
-            rep.violation("%s, a second option -p of the same type shares its default slice (%s): variables are %s and %s (ran=%s err=%s), specification says %s and %s" % (
+            rep.violation("%s, a second variable of the same type (%s: an option -p sharing the default slice / an argument B taking turns): variables are %s and %s (ran=%s err=%s), specification says %s and %s" % (
                 describe(c), c["pair"], r.get("value"), r.get("value2"), r.get("ran"), r.get("err"), w1, w2),
                 {"engine": "values", "case": {k: v for k, v in c.items() if k != "cli_first"}, "expected": w1, "expected2": w2})
     rep.cov["shared_default_cases"] = len(cases)
